@@ -40,10 +40,10 @@ def build_matrix(c):
     if fmt == 'dense':
         return mat(c['A'])
     if fmt == 'csr':
-        return scipy.sparse.csr_matrix((vec(c['data']), np.array(c['indices'], dtype=np.int32),
+        return scipy.sparse.csr_matrix((vec(c['data']), np.array(c['storage_indices'], dtype=np.int32),
                                         np.array(c['indptr'], dtype=np.int32)), shape=(n, n))
     if fmt == 'csc':
-        return scipy.sparse.csc_matrix((vec(c['data']), np.array(c['indices'], dtype=np.int32),
+        return scipy.sparse.csc_matrix((vec(c['data']), np.array(c['storage_indices'], dtype=np.int32),
                                         np.array(c['indptr'], dtype=np.int32)), shape=(n, n))
     if fmt == 'coo':
         return scipy.sparse.coo_matrix((vec(c['data']), (np.array(c['row'], dtype=np.int32),
